@@ -34,6 +34,56 @@ BUILDER = 'core::builder::DelaunayTriangulationBuilder::'
 SCOPES = (DTQ, BUILDER)
 
 
+def _samecert(ctx, cfg, prog, lv, cands):
+    """SAMECERT (a contradiction rule): the shuffled-retry loop takes a candidate that has already passed the flip-based
+    Level-4 check (`is_valid`) and *rejects it again* unless the brute-force verifier (`is_delaunay_property_only`: every
+    cell against every vertex) accepts it - so the authors hold the flip-based check to be insufficient.  Then a
+    construction path whose Ok is not behind the brute-force verifier contradicts that belief.  B = greatest fixed point of
+    result-returning construction bodies all of whose Ok exits lie behind the success edge of a brute-force verifier or of
+    another member.  For every body outside B the offending constructs are named: a value built locally and returned
+    (`own`), or a call to a callee outside B whose Ok reaches the body's Ok without the brute-force gate (`via <callee>`)."""
+    ctx.rule('SAMECERT', 'when one construction path re-checks candidates with the brute-force Delaunay verifier, every '
+                         'construction path returns Ok only behind it')
+    brute_leaf = {tables.L4_BRUTE}
+    S, _off = gate.sound_validators(prog, lv, brute_leaf)
+    G, _sk = gate.unconditional_validators(prog, lv, S, brute_leaf, zero_counters=(tables.T + 'number_of_cells',))
+    G = {g for g in G if prog.bodies[g].kind != 'closure'}
+    # is the brute-force verifier used as a rejecting gate by some construction body at all?
+    users = sorted(q for q in cands if any((t.resolved or t.callee) in G for _, t in prog.bodies[q].calls()))
+    ctx.ob('SAMECERT', 'premise', cfg, True, 'brute-force verifiers: %s; construction bodies that gate on one: %s' % (
+        sorted(g.rsplit('::', 1)[-1] for g in G), [u.rsplit('::', 1)[-1] for u in users][:6]), nontrivial=bool(users))
+    if not users:
+        return
+    B, detail = gate.certified_set(prog, lv, G, cands)
+    ctx.floor('construction bodies that reject candidates on the brute-force verifier', 2, len(users), cfg)
+    for q in users:
+        b = prog.bodies[q]
+        ctx.ob('SAMECERT', '%s|member' % (b.root or q), cfg, q in B,
+               'every Ok exit of this re-checking body lies behind the brute-force verifier' if q in B else
+               'this body re-checks candidates with the brute-force verifier but can also return Ok without it (escaping exits %s)'
+               % detail.get(q, {}).get('escaping'), site='%s:%d' % (b.file, b.line))
+    # roots: bodies outside B that build the value they return themselves (no call to another construction body lies
+    # between the entry and the escaping Ok).  Wrappers that merely forward a root's Ok are not listed: they add nothing
+    # and would make the finding depend on how many convenience constructors exist.
+    for q in sorted(cands - B):
+        b = prog.bodies[q]
+        if '::tests::' in q or not b.file.startswith('src/') or not any((b.root or q).startswith(s_) for s_ in SCOPES):
+            continue
+        if 'rebuild_with_heuristic' in (b.root or q):
+            continue        # the repair's rebuild is C08's business (its Ok is behind the repair post-condition)
+        forwards = False
+        for bb, t in b.calls():
+            names = {n_ for n_ in (t.resolved, t.callee) if n_}
+            if any(x in cands and x != q for x in names):
+                forwards = True
+        if forwards:
+            continue
+        ctx.ob('SAMECERT', '%s|own' % (b.root or q), cfg, False,
+               'builds a triangulation and returns Ok behind the flip-based Level-4 check only (escaping exits %s); the '
+               'shuffled-retry path does not accept that check as sufficient' % detail.get(q, {}).get('escaping'),
+               site='%s:%d' % (b.file, b.line))
+
+
 def run(ctx):
     ctx.rule('CERT', 'exported batch constructors return Ok only behind the success edge of a sound Delaunay verifier')
     ctx.rule('PLGATE', 'true edge of requires_vertex_links_at_completion passes vertex-link validation before Ok')
@@ -79,6 +129,7 @@ def run(ctx):
             if cfg == ctx.cfgs[0] and n <= 4:
                 ctx.sample({'rule': 'CERT', 'constructor': q, 'certified': ok})
         ctx.floor('exported batch constructors', 8, n, cfg)
+        _samecert(ctx, cfg, prog, lv, cands)
         # TWIN: every constructor path exists twice (plain / *_with_construction_statistics); the twins must certify with
         # the same verifiers (a cheaper verifier in one of them silently weakens that half of the API)
         ctx.rule('TWIN', 'a function and its *_with_construction_statistics twin gate their Ok on the same Delaunay verifiers')
@@ -151,6 +202,8 @@ def run(ctx):
         import statsync
         ctx.rule('STATSYNC', 'the per-insertion statistics record the same outcome that is reported (per build profile)')
         statsync.check(ctx, cfg, prog, 'STATSYNC', ctx.mod(cfg))
+        ctx.rule('STATSRC', 'statistics returned with a triangulation come from the construction call that produced it')
+        statsync.check_src(ctx, cfg, prog, 'STATSRC', ctx.mod(cfg))
         import hintstale
         ctx.rule('HINTSTALE', 'a stale cell hint reaches the same fallback scan as no hint')
         hintstale.check(ctx, cfg, prog, ctx.mod(cfg), 'HINTSTALE')
